@@ -31,7 +31,7 @@ META = {
     'assumptions': ['seeds that are not members of the receiving lattice are out of scope'],
 }
 META['rule'] += (' BIGLAT: additionally the Boolean lattice of 16 384 concepts (contranominal scale 14) in the quick '
-                 'tier and those of 32 768 and 65 536 concepts in the thorough tier.')
+                 'tier, in both tiers the contranominal scale 15 plus an isolated pair (32 769 concepts, index 2**15 included), and those of 32 768 and 65 536 concepts in the thorough tier.')
 
 
 def _expected(view, seeds_sidx, up):
@@ -224,6 +224,7 @@ def run_bigseeds(concepts, case, spec):
 def cases(tier, seed, spec):
     yield from bigseed_cases(tier)
     yield from gen.biglat(tier, quick_sizes=(14,))
+    yield from gen.biglat_plus(15)       # 32 769 concepts: indexes up to 2**15 inclusive
     yield from gen.ctx_stream(tier, seed)
 
 
@@ -243,7 +244,7 @@ def run_biglat(concepts, case, spec):
     masks = [sh.omask(c.extent) for c in members]
     COL.count('biglat_cases')
     COL.sample({'fam': case['fam'], 'n_concepts': len(members)})
-    if len(set(masks)) != len(masks) or len(masks) != (1 << sh.n):
+    if len(set(masks)) != len(masks) or len(masks) != case.get('n_concepts', 1 << sh.n):
         COL.count('biglat_member_list_unusable')      # C03's business
         return
     pos = {id(c): k for k, c in enumerate(members)}
